@@ -11,6 +11,7 @@ RULE = ("op streams over 1-4-D objects with pairwise distinct extents and self-d
 
 
 def streams(tier, seed):
+    import itertools as _it
     rng = random.Random(seed * 7919 + 2)
     out = []
     # enumerated: every naming order x every reorder argument on 3-D distinct extents
@@ -24,6 +25,19 @@ def streams(tier, seed):
         for dm in dims:
             out.append([new_op(rng, 0, dims=dims, shape=[2, 3, 4]),
                         {"op": "unfold", "obj": 0, "dim": dm}, {"op": "fold", "obj": 0}])
+    # unfold ... fold on objects whose storage is NOT C-contiguous: after reorder to every permutation (a transposed view;
+    # the full reversal is Fortran-contiguous) and every dim, for 3-D; reversed 4-D
+    for perm in _it.permutations(range(3)):
+        for k in range(3):
+            dims = rng.sample(DIM_POOL, 3)
+            a = new_op(rng, 0, dims=dims, shape=distinct_shape(rng, 3, 2, 5), cplx=False)
+            out.append([a, {"op": "reorder", "obj": 0, "dims": [dims[i] for i in perm]},
+                        {"op": "unfold", "obj": 0, "dim": dims[k]}, {"op": "fold", "obj": 0}])
+    for k in range(4):
+        dims = rng.sample(DIM_POOL + ["q1"], 4)
+        a = new_op(rng, 0, dims=dims, shape=[2, 3, 4, 5], cplx=False)
+        out.append([a, {"op": "reorder", "obj": 0, "dims": list(reversed(dims))},
+                    {"op": "unfold", "obj": 0, "dim": dims[k]}, {"op": "fold", "obj": 0}])
     # sort, systematically: every dim of 2-D and 3-D objects (so the sorted axis is first, middle, last) with ascending,
     # strictly descending and shuffled coordinates; distinct and equal extents
     for nd in (2, 3):
